@@ -216,6 +216,19 @@ CLAIMS["C04"] = (
     "Trusted: numpy matmul/where/var semantics; scipy.optimize.minimize. The normal-equation and 'never worse than zero' clauses are numerical and outside this check.",
     "DESIGN.md §4 C04")
 
+CLAIMS["C07"] = (
+    "wiring rules: decision provenance in select(), keyword forwarding, sampling-pipeline sequence per configuration class, index-generator structure, plus the "
+    "exchange-search path rule shared with C17 (ast)",
+    "Decides the wiring, not the optimisation: in all eight selection protocols the configuration is built from the solver's own decision (soln_decn[0], or "
+    "soln_decn[argmax(ndset_wt * ndset_trans(front objectives, **kwargs))] of the same solution object), with ncross/nparent/nmating/nprogeny and the population "
+    "forwarded by name; sosolve/mosolve build the problem from the same-named arguments, run the matching optimiser on it and copy every solution field by name; "
+    "each of the eight configuration classes samples by (draw without replacement over the decision / repeat(arange(n), counts) or SUS over arange(n) with the "
+    "weights, size (ncross, nparent)) -> outcross_shuffle -> axis_shuffle(axis 0) -> store, or draw/shuffle/cross-map lookup for mate encodings, always with "
+    "self.rng; triuix/triudix start levels at l[-1] / l[-1]+1 and xmapix picks distinct parents iff unique_parents; the outcross search satisfies C17-R1. "
+    "That an exact optimiser picks the best candidates, equivariance and balance are runtime clauses and are NOT decided.",
+    "Trusted: the sampling utilities (checked under C17) and the optimisers (C06).",
+    "DESIGN.md §4 C07")
+
 NOT_YET = "rule set not built yet (build in progress; see DESIGN.md §8)"
 NA = {}
 
